@@ -57,6 +57,12 @@ type world struct {
 	ackedAtClose    map[string]string
 	// history[item] = every value acknowledged for the item, in order
 	history map[string][]string
+	// writes acknowledged before the scenario's administrative calls started (set-up writes) and
+	// the directory images taken when those calls returned
+	ackedAtAdminStart map[string]string
+	adminImages       []adminImage
+	// flushed: what was acknowledged before a Flush/Sync that has returned
+	flushed map[string]string
 }
 
 func (w *world) ack(item, val string) {
@@ -118,6 +124,7 @@ func newWorld(vectors bool, auto bool) func() (any, error) {
 			return nil, err
 		}
 		synctest.Wait()
+		w.ackedAtAdminStart = w.ackedCopy()
 		return w, nil
 	}
 }
@@ -188,8 +195,50 @@ func vecWriter(prefix string, n int) func(any) {
 	}
 }
 
-func snapshotter(st any) { st.(*world).e.SaveSnapshot() }
-func rewriter(st any)    { st.(*world).e.RewriteAOF() }
+// snapshotter / rewriter: when the call has returned successfully, everything acknowledged up
+// to that moment is covered by the new snapshot / compacted log plus the flushed shadow writes —
+// it must survive a process death right then, without any further Flush.
+func snapshotter(st any) {
+	w := st.(*world)
+	if err := w.e.SaveSnapshot(); err == nil {
+		w.markAdminDone()
+	}
+}
+func rewriter(st any) {
+	w := st.(*world)
+	if err := w.e.RewriteAOF(); err == nil {
+		w.markAdminDone()
+	}
+}
+
+// markAdminDone records what had been acknowledged when the administrative call was invoked and
+// takes the crash image at its return.
+func (w *world) markAdminDone() {
+	im, err := crashx.Capture(w.dir)
+	if err != nil {
+		return
+	}
+	w.mu.Lock()
+	floor := copyMap(w.ackedAtAdminStart)
+	for k, v := range w.flushed {
+		floor[k] = v // covered by a Flush/Sync that had returned before this moment
+	}
+	w.adminImages = append(w.adminImages, adminImage{im: im, acked: floor})
+	w.mu.Unlock()
+}
+
+type adminImage struct {
+	im    *crashx.Image
+	acked map[string]string
+}
+
+func copyMap(m map[string]string) map[string]string {
+	out := make(map[string]string, len(m))
+	for k, v := range m {
+		out[k] = v
+	}
+	return out
+}
 
 func closer(st any) {
 	w := st.(*world)
@@ -221,6 +270,14 @@ func flusher(key string, sync bool) func(any) {
 		if err != nil {
 			return
 		}
+		w.mu.Lock()
+		if w.flushed == nil {
+			w.flushed = map[string]string{}
+		}
+		for k, v := range before {
+			w.flushed[k] = v
+		}
+		w.mu.Unlock()
 		have := logItems(filepath.Join(w.dir, "kektordb.aof"))
 		snap := fileExists(filepath.Join(w.dir, "kektordb.kdb"))
 		var miss []string
@@ -378,6 +435,36 @@ func check(st any) (string, string) {
 			return "lost-after-close", strings.Join(miss, "; ")
 		}
 		return "", ""
+	}
+	// (a') process death right when SaveSnapshot / RewriteAOF returned: what had been acknowledged
+	// before the call started is durable without any further flush
+	for _, ai := range w.adminImages {
+		adir, _ := os.MkdirTemp(vk.TmpRoot(), "c14-admin-")
+		if err := ai.im.Materialize(adir); err != nil {
+			os.RemoveAll(adir)
+			return "harness", err.Error()
+		}
+		ea, err := engine.Open(engine.DefaultOptions(adir))
+		if err != nil {
+			os.RemoveAll(adir)
+			return "open-after-crash-failed", err.Error()
+		}
+		its := make([]string, 0, len(ai.acked))
+		for it := range ai.acked {
+			its = append(its, it)
+		}
+		gotA := readState(ea, its)
+		ea.Close()
+		synctest.Wait()
+		os.RemoveAll(adir)
+		for it, v := range gotA {
+			if want, ok := ai.acked[it]; ok && v != want && laterVersion(want, v) {
+				ai.acked[it] = v // a later value of an overwritten item is fine
+			}
+		}
+		if k, d := compare("lost-at-return-of-snapshot-or-compaction", ai.acked, gotA); k != "" {
+			return k, d + " | files: " + ai.im.Listing()
+		}
 	}
 	// (b) process death after a final Flush: recover a copy of the directory
 	if err := w.e.AOF.Flush(); err != nil {
